@@ -1,7 +1,6 @@
 // Kani harnesses compiled inside qcongestion::congestion (overlay, cfg(kani) only).
 // Property C13, controller level: the send quota against the congestion window (suspected defect,
-// tier "pending" + passing twin) and the probe-timeout counter (`on_loss_detection_timeout`,
-// `do_tick` -> TooManyPtos).
+// tier "pending" + passing twin).
 //
 // The controller is built through the real `ArcCC::new` (NewReno, mtu 1200: cwnd = 12000, initial
 // smoothed RTT 33 ms, rttvar 16.5 ms, pacer bucket 12000 bytes). The virtual clock starts at a CONCRETE
@@ -77,11 +76,6 @@ fn new_cc(is_server: bool) -> (ArcCC, Arc<HandshakeStatus>) {
         ArcSendWaker::new(),
     );
     (cc, hs)
-}
-
-fn probes(g: &CongestionController) -> (usize, usize, usize) {
-    let p = &g.need_send_ack_eliciting_packets;
-    (p[Epoch::Initial], p[Epoch::Handshake], p[Epoch::Data])
 }
 
 const CWND0: usize = 12_000;
@@ -161,64 +155,16 @@ fn c13_pending_quota_respects_window() {
     quota_step(true);
 }
 
-/// Probe timeout with nothing in flight and no pending time-threshold loss (the anti-deadlock
-/// PTO of RFC 9002 A.9): `on_loss_detection_timeout` through `Transport::do_tick`.
+// NOT REGISTERED / removed: a one-step harness of `Transport::do_tick` -> `on_loss_detection_timeout`
+// (pto_count + 1, one probe requested, TooManyPtos after more than six expiries, timer re-armed) on
+// a controller without packets: symbolic execution walks detect_lost_packets and the per-space
+// iterator chains for every space (931 k SSA steps, 266 s) and the SAT query does not finish in 500 s.
+
+/// The packet-reordering threshold the controller hands to detect_lost_packets (whose harnesses
+/// take the threshold as a parameter) and the abandon limit are the RFC 9002 values.
 #[kani::proof]
-#[kani::unwind(6)]
-#[kani::stub(tokio::time::Instant::now, sym_now)]
-#[kani::stub(is_symbolic_run, stub_yes)]
-#[kani::stub(std::sync::Mutex::lock, stub_lock)]
-#[kani::stub(std::hash::RandomState::new, fixed_random_state)]
-#[kani::stub(qevent::telemetry::macro_support::build_and_emit_event, no_emit)]
-#[kani::stub(tracing::callsite::DefaultCallsite::interest, stub_tr_interest)]
-#[kani::stub(tracing::__macro_support::__is_enabled, stub_tr_enabled)]
-#[kani::stub(tracing::Event::dispatch, stub_tr_dispatch)]
-#[kani::stub(core::fmt::write, stub_fmt_write)]
-fn c13_cc_pto_expiry() {
-    let now = h_start_concrete();
-    let is_server: bool = kani::any();
-    let (cc, hs) = new_cc(is_server);
-    let has_key: bool = kani::any();
-    let validated: bool = kani::any();
-    if has_key {
-        hs.got_handshake_key();
-    }
-    if validated {
-        hs.received_handshake_ack();
-    }
-    let limited: bool = kani::any();
-    let n: u32 = kani::any();
-    kani::assume(n <= 7);
-    let armed: bool = kani::any();
-    let late = any_dur(60);
-    {
-        let mut g = cc.0.lock().unwrap();
-        if !limited {
-            g.path_status.release_anti_amplification_limit();
-        }
-        g.pto_count = n;
-        g.loss_detection_timer = if armed { Some(now - late) } else { None };
-    }
-    let r = cc.do_tick();
-    let g = cc.0.lock().unwrap();
-    if !armed {
-        assert!(r.is_ok() && g.pto_count == n && probes(&g) == (0, 0, 0), "no timer, no timeout");
-    } else {
-        assert!(g.pto_count == n + 1, "every expiry counts once");
-        match r {
-            Ok(()) => assert!(n + 1 <= 6),
-            Err(TooManyPtos(c)) => assert!(c == n + 1 && c > 6, "the path is abandoned after more than six consecutive probe timeouts"),
-        }
-        // exactly one ack-eliciting probe is requested, in the Handshake space iff its keys exist
-        let want = if has_key { (0, 1, 0) } else { (1, 0, 0) };
-        assert!(probes(&g) == want, "one probe packet requested");
-        // re-arming: a server at its anti-amplification limit, or a peer that has validated our
-        // address with nothing in flight, has no timer; otherwise now + PTO(pto_count)
-        let exp = if limited || is_server || validated { None } else { Some(now + g.rtt.base_pto(n + 1)) };
-        assert!(g.loss_detection_timer == exp, "timer re-armed with the backed-off probe timeout");
-    }
-    kani::cover!(armed && r.is_err(), "too many probe timeouts");
-    kani::cover!(armed && r.is_ok() && g.loss_detection_timer.is_some(), "re-armed");
-    drop(g);
-    core::mem::forget(cc);
+fn c13_cc_constants() {
+    assert!(PACKET_THRESHOLD == 3, "kPacketThreshold = 3 (RFC 9002 6.1.1)");
+    assert!(INIT_CWND == 10 * MSS && MSS == 1200);
+    kani::cover!(true, "reached");
 }
